@@ -473,3 +473,66 @@ Proof.
   - intros (i & q & a & b & rep & H). eexists. split; [exact H|reflexivity].
   - intros (ev & H & E). destruct ev; try discriminate. eexists _, _, _, _, _. exact H.
 Qed.
+
+(* ---------- programs without an origin call on any path (only-if-cached) ---------- *)
+Lemma run_no_origin {A} (p : prog A) : forall limit w res w', NoOrigin p -> run limit p w = (res, w') ->
+  (exists y, w_log w' = y ++ w_log w /\ ~ has_call y) /\
+  (exists ps, w_pending w' = w_pending w ++ ps /\ Forall NoOrigin ps).
+Proof.
+  assert (Hsnoc : forall y ev, ~ has_call y -> (forall i q a b rep, ev <> EvCall i q a b rep) -> ~ has_call (y ++ [ev])).
+  { intros y ev Hy Hev (i & q & a & b & rep & Hin). apply in_app_or in Hin as [Hin|[Hin|[]]].
+    - apply Hy. exists i, q, a, b, rep. exact Hin.
+    - apply (Hev i q a b rep). exact Hin. }
+  induction p as [A0 a0|A0 k f IH|A0 k f IH|A0 k e f IH|A0 k l f IH|A0 k f IH|A0 r f IH|A0 f IH|A0 b IHb f IHf|A0|A0];
+    intros limit w res w' HN H; cbn [run] in H; inversion HN; subst;
+    repeat match goal with X : existT _ _ _ = existT _ _ _ |- _ => apply Eqdep_dec.inj_pair2_eq_dec in X; [subst|decide equality] end.
+  - injection H as _ <-. split; [exists []; split; [reflexivity|intros (i & q & a & b & rep & [])]|exists []; split; [rewrite app_nil_r; reflexivity|constructor]].
+  - match goal with X : forall x, NoOrigin (f x) |- _ => destruct (IH _ limit _ res w' (X _) H) as ((y & Hy & Hn) & Hp) end.
+    split; [|exact Hp]. eexists (y ++ [_]). split; [rewrite Hy, <- app_assoc; reflexivity|apply Hsnoc; [exact Hn|intros; discriminate]].
+  - match goal with X : forall x, NoOrigin (f x) |- _ => destruct (IH _ limit _ res w' (X _) H) as ((y & Hy & Hn) & Hp) end.
+    split; [|exact Hp]. eexists (y ++ [_]). split; [rewrite Hy, <- app_assoc; reflexivity|apply Hsnoc; [exact Hn|intros; discriminate]].
+  - match goal with X : NoOrigin f |- _ => destruct (IH limit _ res w' X H) as ((y & Hy & Hn) & Hp) end.
+    split; [|exact Hp]. eexists (y ++ [_]). split; [rewrite Hy, <- app_assoc; reflexivity|apply Hsnoc; [exact Hn|intros; discriminate]].
+  - match goal with X : NoOrigin f |- _ => destruct (IH limit _ res w' X H) as ((y & Hy & Hn) & Hp) end.
+    split; [|exact Hp]. eexists (y ++ [_]). split; [rewrite Hy, <- app_assoc; reflexivity|apply Hsnoc; [exact Hn|intros; discriminate]].
+  - match goal with X : NoOrigin f |- _ => destruct (IH limit _ res w' X H) as ((y & Hy & Hn) & Hp) end.
+    split; [|exact Hp]. eexists (y ++ [_]). split; [rewrite Hy, <- app_assoc; reflexivity|apply Hsnoc; [exact Hn|intros; discriminate]].
+  - match goal with X : forall t, NoOrigin (f t) |- _ => exact (IH _ limit _ res w' (X _) H) end.
+  - match goal with X : NoOrigin f, Y : NoOrigin b |- _ => destruct (IHf limit _ res w' X H) as (Hl & (ps & Hps & Hf)); cbn [w_pending w_log] in *;
+      split; [exact Hl|exists (b :: ps); split; [rewrite Hps, <- app_assoc; reflexivity|constructor; assumption]] end.
+  - injection H as _ <-. split; [exists []; split; [reflexivity|intros (i & q & a & b & rep & [])]|exists []; split; [rewrite app_nil_r; reflexivity|constructor]].
+  - injection H as _ <-. split; [exists []; split; [reflexivity|intros (i & q & a & b & rep & [])]|exists []; split; [rewrite app_nil_r; reflexivity|constructor]].
+Qed.
+
+Lemma run_pending_no_origin T ps : forall w ok w', Forall NoOrigin ps -> Forall NoOrigin (w_pending w) ->
+  run_pending T ps w = (ok, w') -> exists y, w_log w' = y ++ w_log w /\ ~ has_call y.
+Proof.
+  induction ps as [|p r IH]; intros w ok w' Hps HP H; cbn [run_pending] in H.
+  - injection H as _ <-. exists []. split; [reflexivity|intros (i & q & a & b & rep & [])].
+  - inversion Hps as [|? ? Hp Hr]; subst. destruct (run (Some T) p w) as [res w1] eqn:E.
+    destruct (run_no_origin p _ _ _ _ Hp E) as ((y1 & Hy1 & Hn1) & (ps1 & Hps1 & Hf1)).
+    destruct res.
+    + destruct (IH w1 ok w' Hr) as (y2 & Hy2 & Hn2); [rewrite Hps1; apply Forall_app; split; assumption|exact H|].
+      exists (y2 ++ y1). split; [rewrite Hy2, Hy1, app_assoc; reflexivity|].
+      intros (i & q & a' & b & rep & Hin). apply in_app_or in Hin as [Hin|Hin]; [apply Hn2|apply Hn1]; exists i, q, a', b, rep; exact Hin.
+    + injection H as _ <-. exists y1. split; assumption.
+    + injection H as _ <-. exists y1. split; assumption.
+Qed.
+
+(* an exchange whose program has no origin call on any path logs none, in the foreground or in the background *)
+Theorem exchange_no_origin cfg q w obs w' : NoOrigin (round_trip q) -> exchange cfg q w = (obs, w') ->
+  ~ has_call (x_events obs) /\ ~ has_call (x_bg_events obs).
+Proof.
+  intros HN H. unfold exchange in H.
+  destruct (run None (round_trip q) (clear_log_pending w)) as [res w1] eqn:E1.
+  destruct (run_pending (effective_swr_timeout (cfg_swr_timeout cfg)) (w_pending w1) (clear_log_pending w1)) as [ok w2] eqn:E2.
+  injection H as <- <-. cbn [x_events x_bg_events].
+  destruct (run_no_origin _ _ _ _ _ HN E1) as ((y1 & Hy1 & Hn1) & (ps1 & Hps1 & Hf1)). cbn [clear_log_pending w_log w_pending app] in *.
+  rewrite app_nil_r in Hy1.
+  assert (Hpe : Forall NoOrigin (w_pending w1)) by (rewrite Hps1; exact Hf1).
+  destruct (run_pending_no_origin _ _ (clear_log_pending w1) ok w2 Hpe (Forall_nil _) E2) as (y2 & Hy2 & Hn2).
+  cbn [clear_log_pending w_log] in Hy2. rewrite app_nil_r in Hy2.
+  split; intros (i & q0 & a & b & rep & Hin); apply in_rev in Hin.
+  - apply Hn1. rewrite <- Hy1. exists i, q0, a, b, rep. exact Hin.
+  - apply Hn2. rewrite <- Hy2. exists i, q0, a, b, rep. exact Hin.
+Qed.
